@@ -173,7 +173,22 @@ fn run_hist(ctx: &mut Ctx, from: u64, to: u64, update_state_mode: bool) {
             ctx.count("histories_with_line_longer_than_4096_chars", 1);
         }
         let final_pred = rng.below(preds.len());
-        let final_text = rng.pick(&all_texts).to_vec();
+        let mut final_text = rng.pick(&all_texts).to_vec();
+        // pure single-byte text before and after an annotated multi-byte line (position tables of three kinds in a row)
+        if rng.chance(1, 8) {
+            const ASCII: &[char] = &['a', 'b', 'Z', '0', '7', '9', ' ', '-', 'x'];
+            let n1 = rng.urange(1, 14);
+            let n2 = rng.urange(1, 14);
+            let a1: String = (0..n1).map(|_| *rng.pick(ASCII)).collect();
+            final_text = (0..n2).map(|_| *rng.pick(ASCII)).collect();
+            ops.push(Op::Update(Fmt::Raw, a1));
+            ops.push(if rng.chance(1, 2) {
+                Op::Update(Fmt::Tok, "火星/名詞 猫 の 𠮷野家/名詞/ヨシノヤ é".to_string())
+            } else {
+                Op::Update(Fmt::Part, "火-星/名詞|猫 の|𠮷-野-家/名詞|é-é".to_string())
+            });
+            ctx.count("histories_with_ascii_raw_then_annotated_multibyte_then_ascii_raw", 1);
+        }
         // the object last held a text of the same byte and character counts (a permutation of the final one)
         if rng.chance(1, 5) {
             let mut perm = final_text.clone();
